@@ -188,6 +188,10 @@ func (bkt *Bucket) open(bucketID int, home string) (err error) {
 	if err != nil {
 		return err
 	}
+	if maxdata > 0 {
+		// otherwise hint lookups ignore every chunk above 0 until the first write
+		bkt.hints.maxChunkID = maxdata
+	}
 	htrees, ids := bkt.getAllIndex(HTREE_SUFFIX)
 	for i := len(htrees) - 1; i >= 0; i-- {
 		treepath := htrees[i]
